@@ -235,6 +235,8 @@ static Verdict check_wide_high(const std::string &text, bool p2s, int bc, unsign
   bool raw = false;
   std::string want = m_unesc(modelIn, p2s, bc, &raw);
   if (raw && bc != URI_BR_DONT_TOUCH) return Verdict::pass();  // see above: raw breaks under a converting mode are not judged exactly
+  // the placeholder must stand for the lifted characters only: a triplet of the text that decodes to the same byte would be mistaken for one
+  { size_t cnt = 0; for (char c : want) if (c == ph) cnt++; if (cnt != lifted.size()) return Verdict::pass(); }
   size_t n = w.size();
   wchar_t *buf = gout().right_chars<wchar_t>(n + 1);
   memcpy(buf, w.c_str(), (n + 1) * sizeof(wchar_t));
